@@ -41,13 +41,15 @@ fn truthy(v: &Option<String>) -> bool {
 /// a call in condition position (if / elseif / not / while / inside another function used as a condition)
 fn gen_cond(r: &mut Rng) -> Value {
     let vals = ["true", "false", "abc", "0", "no", "YES"];
-    let forms = ["if", "elseif", "not", "while", "nested", "assign"];
-    let form = forms[r.below(6)];
+    let forms = ["if", "elseif", "not", "while", "nested", "assign", "args", "args"];
+    let form = forms[r.below(8)];
+    let pads = [" ", "  ", " ab ", "a b", "", "x", "\t", "ab "];
+    let (p1, p2) = (pads[r.below(8)], pads[r.below(8)]);
     json!({"kind": "cond", "scoped": r.chance(1, 3),
         "stale": if r.chance(2, 3) { json!(vals[r.below(3)]) } else { Value::Null },
         "log": r.chance(1, 2),
         "end": match r.below(4) { 0 => json!("fall"), 1 => json!("bare"), _ => json!(vals[r.below(vals.len())]) },
-        "form": form})
+        "form": form, "p1": p1, "p2": p2})
 }
 
 /// a function that calls itself from inside a for-in loop; the innermost call may leave through `return`
@@ -100,6 +102,25 @@ fn run_cond(input: &Value) -> Option<Value> {
     let scoped = input["scoped"].as_bool().unwrap_or(false);
     let form = input["form"].as_str()?;
     let end = input["end"].as_str()?;
+    if form == "args" {
+        // a call in condition position: the body sees the argument VALUES (blank-only, padded, empty ones included)
+        let (p1, p2) = (input["p1"].as_str()?, input["p2"].as_str()?);
+        let q = |v: &str| format!("\"{}\"", v.replace('\t', "\\t"));
+        let l = vec![
+            if scoped { "fn <scope> f".to_string() } else { "fn f".to_string() },
+            "tlog \"[${1}][${2}][${3}]\"".to_string(),
+            "return true".to_string(),
+            "end".to_string(),
+            format!("p1 = set {}", q(p1)),
+            format!("p2 = set {}", q(p2)),
+            "if f ${p1} ${p2} last".to_string(),
+            "tlog yes".to_string(),
+            "end".to_string(),
+            "r = not f ${p2} ${p1} last".to_string(),
+        ];
+        let log = format!(" [{}][{}][last] yes [{}][{}][last]", p1, p2, p2, p1);
+        return run_logged(&l.join("\n"), &log, &[("r", Some("false".to_string()))]);
+    }
     let mut l = vec![if scoped { "fn <scope> f".to_string() } else { "fn f".to_string() }];
     if let Some(st) = input["stale"].as_str() {
         l.push(format!("v = set {}", st));
@@ -438,7 +459,7 @@ fn run_inner(input: &Value) -> Option<Value> {
             }
         }
     }
-    if steps > 5000 {
+    if steps > 20000 {
         return None;
     }
     let mut context = Context::new();
